@@ -18,6 +18,7 @@ WD == W(<<<<1, 7>>, <<1, 12>>, <<2, 18>>>>, <<0, 0, 0>>)
 \* the second contract stops trading before the first one does (it is never the front contract)
 WE == W(<<<<1, 12>>, <<3, 9>>, <<5, 18>>>>, <<0, 0, 0>>)
 WorldsSmall == {WA, WB}
+WorldsOne   == {WA}
 WorldsAll   == {WA, WB, WC, WD, WE}
 
 MCInit == Init /\ hist = <<>>
